@@ -916,13 +916,25 @@ impl ProgGen {
             0 | 1 => {
                 self.t("return");
                 self.expr_list(depth.min(2), vararg, 0, 2);
-                if !self.markers && self.rng.chance(1, 12) {
+                if self.rng.chance(1, 5) {
                     self.t(";");
                     self.last_semicolons += 1;
                 }
             }
-            6 => self.t("break"),
-            7 => self.t("continue"),
+            6 => {
+                self.t("break");
+                if self.rng.chance(1, 5) {
+                    self.t(";");
+                    self.last_semicolons += 1;
+                }
+            }
+            7 => {
+                self.t("continue");
+                if self.rng.chance(1, 5) {
+                    self.t(";");
+                    self.last_semicolons += 1;
+                }
+            }
             _ => {}
         }
     }
@@ -1454,10 +1466,8 @@ pub fn check_source(
     report.hist("H3", if flags.h3 { "inside" } else { "outside (F7 region)" });
     let nontrivial = enc.trivia > 0 && enc.tokens > 3;
     if last_semicolons > 0 {
-        // F25 region: `;` after return/break/continue (and its trivia) is not written
-        report.hist("source", if out == code { "F25 region: identical" } else { "F25 region: last semicolon dropped" });
-        report.case(if nontrivial { Some((label, code)) } else { None });
-        return true;
+        // (finding F25, fixed: the `;` after a last statement is written; no exclusion any more)
+        report.hist("source", "has a `;` after a last statement");
     }
     if typed {
         // annotations may legitimately lose parentheses / spacing: compare modulo those bytes
